@@ -21,6 +21,10 @@ def _populate_grid_time(cursor, time_zone_name, result):
     ensures(result[1] > 0)
     ensures(forall(0, len(result[0]) - 1, lambda i: result[0][i + 1] - result[0][i] == result[1]))
     # what populate_water_level requires of the grid it is given
+    ensures(forall(0, len(result[0]), lambda j: forall(0, j, lambda i: result[0][i] < result[0][j])))
+    ensures(not db_sealed())
+    ensures(len(db_rows("grid_time_label")) == len(db_rows_before("grid_time_label"))
+            and len(db_rows("water_level")) == len(db_rows_before("water_level")))
     ensures(uf_int("n_staged_wl") >= 2)
     ensures(uf_int("min_staged_wl") <= result[0][0] and result[0][len(result[0]) - 2] <= uf_int("max_staged_wl"))
 
@@ -30,8 +34,8 @@ def _generate_timestamped_rows(rows, tz, result):
     """C11: each yielded row starts with an integer epoch whose rendering in the declared zone is the
     wall time written in the input row (texts and values are modelled by integer identities); the other
     fields are passed through; a non-integer number of seconds is refused."""
-    requires(forall(0, len(rows), lambda k: len(rows[k]) >= 1))
     may_raise(ValueError)
+    may_raise(IndexError)            # a row without any field (blank line in the file)
     ensures(len(result) == len(rows))
     ensures(forall(0, len(result), lambda k: len(result[k]) == len(rows[k])
                    and uf_int("wall_of", tz.id, result[k][0]) == uf_int("parse_wall", rows[k][0])
@@ -56,6 +60,9 @@ def _populate_evapotranspiration(cursor, time_grid, time_step, tz):
     ghost(before="raise ValueError('No ET data", do=lambda: cut(len(g_missing) >= 1))
     ensures(len(g_missing) == 0)
     ensures(forall_int(lambda e: implies(uf_int("on_grid", e) == 1, uf_int("has_staged_et", e) != 0)))
+    ensures(not db_sealed())
+    ensures(len(db_rows("grid_time_label")) == len(db_rows_before("grid_time_label"))
+            and len(db_rows("water_level")) == len(db_rows_before("water_level")))
 
 
 @contract("spowtd.load:populate_rainfall_intensity", db=True,
@@ -64,6 +71,9 @@ def _populate_rainfall_intensity(cursor, time_grid, time_step):
     requires(not db_sealed())
     requires(len(time_grid) >= 2)
     modifies("__db__")
+    ensures(not db_sealed())
+    ensures(len(db_rows("grid_time_label")) == len(db_rows_before("grid_time_label"))
+            and len(db_rows("water_level")) == len(db_rows_before("water_level")))
 
 
 # --------------------------------------------------------------------------- populate_water_level (C10)
@@ -104,7 +114,7 @@ def st_end(T, t, gaps, k):
 
 
 @contract("spowtd.load:populate_water_level", db=True, args={"cursor": "cursor", "time_grid": "list[int]"}, returns="none",
-          ghost_results={"g_t": "array[int]", "g_z": "list[real]", "g_min": "int", "g_lab": "array[int]", "g_src": "array[int]"})
+          ghost_results={"g_t": "array[int]", "g_z": "list[real]", "g_min": "int", "g_lab": "array[int]", "g_valid": "array[bool]", "g_src": "array[int]"})
 def _populate_water_level(cursor, time_grid):
     """C10, third and fourth sentence.  g_t / g_z: the staged source record; g_min: its minimal step;
     g_lab: the label of every grid instant (-1 = none); g_src: the positions of the labelled instants.
@@ -156,7 +166,9 @@ def _populate_water_level(cursor, time_grid):
          and implies(it >= 1 and time_grid[i] <= st_end(time_grid, zeta_t, gap_i, it - 1),
                      g_k[i] != -1 or in_gap(zeta_t, g_min, time_grid[i]))))
     ghost(before="valid_mask = ", let="g_lab", do=lambda: data_intervals)
+    ghost(after="valid_mask = ", let="g_valid", do=lambda: valid_mask)
     ghost(after="valid_mask = ", let="g_src", do=lambda: np.nonzero(valid_mask)[0])
+    ensures(not db_sealed())
     ensures(len(g_t) == len(g_z) and len(g_t) >= 2)
     ensures(forall(0, len(g_t) - 1, lambda s: g_min <= g_t[s + 1] - g_t[s]))
     ensures(exists(0, len(g_t) - 1, lambda s: g_min == g_t[s + 1] - g_t[s]))
@@ -167,7 +179,8 @@ def _populate_water_level(cursor, time_grid):
     # the labelled instants, in order
     ensures(forall(0, len(g_src), lambda r: 0 <= g_src[r] and g_src[r] < len(time_grid) and g_lab[g_src[r]] != -1))
     ensures(forall(0, len(g_src), lambda r2: forall(0, r2, lambda r: g_src[r] < g_src[r2])))
-    ensures(forall(0, len(time_grid), lambda i: implies(g_lab[i] != -1, exists(0, len(g_src), lambda r: g_src[r] == i))))
+    ensures(len(g_valid) == len(time_grid) and forall(0, len(time_grid), lambda i: g_valid[i] == (g_lab[i] != -1)))
+    ensures(forall(0, len(time_grid), lambda i: implies(g_valid[i], exists(0, len(g_src), lambda r: g_src[r] == i))))
     ensures(len(db_rows("grid_time_label")) == len(g_src))
     ensures(forall(0, len(g_src), lambda r: db_rows("grid_time_label")[r][0] == g_lab[g_src[r]]
                    and db_rows("grid_time_label")[r][1] == time_grid[g_src[r]]))
@@ -175,3 +188,31 @@ def _populate_water_level(cursor, time_grid):
     ensures(len(db_rows("water_level")) == len(g_src) - (1 if g_lab[len(time_grid) - 1] != -1 else 0))
     ensures(forall(0, len(db_rows("water_level")), lambda r: db_rows("water_level")[r][0] == time_grid[g_src[r]]
                    and bracketed(g_t, g_z, time_grid[g_src[r]], db_rows("water_level")[r][1])))
+
+
+# --------------------------------------------------------------------------- load_data (C10 / C11: the glue)
+
+@contract("spowtd.load:load_data", db=True,
+          args={"connection": "connection", "precipitation_data_file": "file", "evapotranspiration_data_file": "file",
+                "water_level_data_file": "file", "time_zone_name": "const:UTC"}, returns="none",
+          ghost_results={"g_tables": "list[tuple[int]]", "g_rows": "list[tuple[int]]", "g_lab": "array[int]"})
+def _load_data(connection, precipitation_data_file, evapotranspiration_data_file, water_level_data_file, time_zone_name):
+    """C11, third refusal: a dataset that already holds tables is refused with ValueError before anything is written,
+    and the step only completes for an empty one.  Glue: the staging inserts, then populate_grid_time,
+    populate_rainfall_intensity, populate_evapotranspiration, populate_water_level are called in that order with
+    their preconditions established at the call sites (in particular what populate_water_level requires of the grid
+    follows from what populate_grid_time ensures), nothing is written after the single commit at the end."""
+    requires(not db_sealed())
+    modifies("__db__")
+    may_raise(ValueError)            # the refusals of the populate_* functions and of generate_timestamped_rows
+    may_raise(AssertionError)        # header checks on opaque strings
+    may_raise(IndexError)
+    ghost(after="tables = [", let="g_tables", do=lambda: cursor.fetchall())
+    ghost(before="raise ValueError('Database already populated", do=lambda: cut(len(g_tables) >= 1 and
+          len(db_rows("water_level")) == len(db_rows_before("water_level")) and
+          len(db_rows("rainfall_intensity_staging")) == len(db_rows_before("rainfall_intensity_staging"))))
+    ensures(len(g_tables) == 0)
+    ensures(db_sealed())
+    # every instant of the stored grid (g_rows: populate_grid_time's staged instants, plus the closing one) was
+    # offered to populate_water_level for a label / a water level (g_lab: its per-instant labels)
+    ensures(len(g_lab) == len(g_rows) + 1)
